@@ -57,6 +57,10 @@ pub struct IndSys {
 	pub flat: bool,
 	/// per (config index, slot) counters: is every signal slot exercised?
 	pub stats: Vec<Vec<SlotStats>>,
+	/// two more state-dependent symbols: a zigzag on a rising (+2, -1, +2, ...) / falling (-2, +1, ...) trend.
+	/// In the flat shape starting one right after c0 and continuing it are free: hundreds of swing
+	/// highs / lows on one side of every slow average (peak counters, consecutive-pivot rules)
+	pub zigzag: bool,
 }
 
 #[derive(Clone)]
@@ -69,6 +73,11 @@ pub struct IState {
 	pub prev: Candle,
 	/// the last action was a shift of the previous candle by this much (0: an absolute symbol)
 	pub trend: i8,
+	/// per slot (bit i): on this path the implementation has followed the implementation reading AGAINST
+	/// the documented one / the documented one AGAINST the implementation reading. An implementation
+	/// that does both on one path implements neither reading.
+	pub took_alt: u8,
+	pub took_doc: u8,
 }
 
 impl IndSys {
@@ -77,7 +86,11 @@ impl IndSys {
 			.iter()
 			.map(|c| (0..c.size().1.max(c.size().0) as usize).map(|_| SlotStats { buy: 0.into(), sell: 0.into(), silent: 0.into(), exempt: 0.into() }).collect())
 			.collect();
-		Self { name: name.to_string(), cfgs, c0s, alphabet, oracle, flat, stats }
+		Self { name: name.to_string(), cfgs, c0s, alphabet, oracle, flat, stats, zigzag: false }
+	}
+	pub fn with_zigzag(mut self) -> Self {
+		self.zigzag = true;
+		self
 	}
 	/// slots of the signal oracle that never said "buy" / "sell" / "silent" anywhere
 	pub fn unexercised(&self) -> Vec<String> {
@@ -120,7 +133,7 @@ impl System for IndSys {
 				let Ok(Ok(imp)) = catch(|| c.init(c0)) else { continue };
 				let Some(rf) = refmodel::ind::make(c.const_name(), &rcfg, &rc(c0)) else { continue };
 				let alt = refmodel::ind::make_alt(c.const_name(), &rcfg, &rc(c0));
-				v.push((IState { imp, rf, alt, cfg: i, prev: *c0, trend: 0 }, format!("{} {} c0={}", c.const_name(), c.to_json().unwrap_or_default(), In::C(*c0).show())));
+				v.push((IState { imp, rf, alt, cfg: i, prev: *c0, trend: 0, took_alt: 0, took_doc: 0 }, format!("{} {} c0={}", c.const_name(), c.to_json().unwrap_or_default(), In::C(*c0).show())));
 			}
 		}
 		v
@@ -144,6 +157,13 @@ impl System for IndSys {
 		if s.prev.low > 2.0 {
 			v.push((n + 1, if self.flat && s.trend != -1 { 1 } else { 0 }));
 		}
+		if self.zigzag {
+			// trend codes: 2 / -2 = last step of a rising zigzag was +2 / -1; 3 / -3 = falling zigzag -2 / +1
+			v.push((n + 3, if self.flat && !(depth == 1 || s.trend.abs() == 2) { 1 } else { 0 }));
+			if s.prev.low > 3.0 {
+				v.push((n + 4, if self.flat && !(depth == 1 || s.trend.abs() == 3) { 1 } else { 0 }));
+			}
+		}
 		v
 	}
 	fn show_act(&self, a: &usize) -> String {
@@ -154,6 +174,10 @@ impl System for IndSys {
 			"prev-1".into()
 		} else if *a == n + 2 {
 			"c0".into()
+		} else if *a == n + 3 {
+			"zigzag-up(+2/-1)".into()
+		} else if *a == n + 4 {
+			"zigzag-down(-2/+1)".into()
 		} else {
 			In::C(self.alphabet[*a]).show()
 		}
@@ -166,13 +190,27 @@ impl System for IndSys {
 			shift(&s.prev, -1.0)
 		} else if *a == self.alphabet.len() + 2 {
 			s.prev
+		} else if *a == self.alphabet.len() + 3 {
+			shift(&s.prev, if s.trend == 2 { -1.0 } else { 2.0 })
+		} else if *a == self.alphabet.len() + 4 {
+			shift(&s.prev, if s.trend == 3 { 1.0 } else { -2.0 })
 		} else {
 			self.alphabet[*a]
 		};
 		let name = self.cfgs[s.cfg].const_name();
 		let mut n = s.clone();
 		n.prev = c;
-		n.trend = if *a == self.alphabet.len() { 1 } else if *a == self.alphabet.len() + 1 { -1 } else { 0 };
+		n.trend = if *a == self.alphabet.len() {
+			1
+		} else if *a == self.alphabet.len() + 1 {
+			-1
+		} else if *a == self.alphabet.len() + 3 {
+			if s.trend == 2 { -2 } else { 2 }
+		} else if *a == self.alphabet.len() + 4 {
+			if s.trend == 3 { -3 } else { 3 }
+		} else {
+			0
+		};
 		let r = match catch(|| n.imp.next(&c)) {
 			Ok(r) => r,
 			Err(_) => return Step::Prune, // panics are C10's business
@@ -202,6 +240,25 @@ impl System for IndSys {
 					return Step::Violation(Failure::new(format!("{name}/values/count"), format!("indicator returned {} values, the documentation lists {}", own.len(), want_v.len())));
 				}
 				for (i, (q, o)) in want_v.iter().zip(&own).enumerate() {
+					if let Some(aq) = alt_v.as_ref().and_then(|a| a.get(i)) {
+						if q.is_defined() && aq.is_defined() && i < 8 {
+							let (d, a) = (q.contains(*o), aq.contains(*o));
+							if a && !d {
+								n.took_alt |= 1 << i;
+							}
+							if d && !a {
+								n.took_doc |= 1 << i;
+							}
+							if n.took_alt & n.took_doc & (1 << i) != 0 {
+								n.took_alt &= !(1 << i);
+								n.took_doc &= !(1 << i);
+								let f = Failure::new(format!("{name}/value#{i}/follows-neither-reading-consistently"), format!("value #{i} = {o:?}: on this path the indicator has agreed with the documented formula where the recorded implementation reading differs AND with the implementation reading where the documented formula differs (documented {:?}, implementation reading {:?})", q.v, aq.v));
+								if cont.is_none() {
+									cont = Some(f);
+								}
+							}
+						}
+					}
 					if !q.is_defined() {
 						exempt = true;
 						self.stats[s.cfg][i.min(self.stats[s.cfg].len() - 1)].exempt.fetch_add(1, Ordering::Relaxed);
@@ -229,6 +286,24 @@ impl System for IndSys {
 				for (i, (w, g)) in want_s.iter().zip(got).enumerate() {
 					let st = &self.stats[s.cfg][i];
 					let gs = act_strength(g);
+					if let Some(aw) = alt_s.as_ref().and_then(|a| a.get(i)) {
+						if let (Some(d), Some(a), true) = (sig_match(w, gs), sig_match(aw, gs), i < 8) {
+							if a && !d {
+								n.took_alt |= 1 << i;
+							}
+							if d && !a {
+								n.took_doc |= 1 << i;
+							}
+							if n.took_alt & n.took_doc & (1 << i) != 0 {
+								n.took_alt &= !(1 << i);
+								n.took_doc &= !(1 << i);
+								let f = Failure::new(format!("{name}/signal#{i}/follows-neither-reading-consistently"), format!("signal #{i} = {g:?}: on this path the indicator has agreed with the documented rule where the recorded implementation reading differs AND with the implementation reading where the documented rule differs (documented {w:?}, implementation reading {aw:?}; own values {own:?})"));
+								if cont.is_none() {
+									cont = Some(f);
+								}
+							}
+						}
+					}
 					match w {
 						Sig::Any => {
 							exempt = true;
@@ -277,6 +352,18 @@ impl System for IndSys {
 		} else {
 			Step::Next(n)
 		}
+	}
+}
+
+/// does the observed strength satisfy an expectation? `None`: the expectation leaves it open
+fn sig_match(w: &Sig, gs: Option<i32>) -> Option<bool> {
+	match w {
+		Sig::Any => None,
+		Sig::None => Some(gs.is_none() || gs == Some(0)),
+		Sig::S(k) => Some(match gs {
+			Some(x) => x == *k,
+			None => *k == 0,
+		}),
 	}
 }
 
